@@ -96,7 +96,60 @@ theorem foreign_tree_witness :
     accept true foreignProof none = false := by
   decide
 
-theorem facts_ok : Gen.C13.rootCompared = true ∧ Gen.C13.followsChecked = true ∧ Gen.C13.extractErrors = [] := by decide
+/-- **accepted_partial** — what the code as it is guarantees (no root comparison in `Prove`):
+everything of `accepted_is_committed` except that the proof's root is the manifest's states tree. -/
+theorem accepted_partial (rc : Bool) (sp : SP) (prev : Option Prev) (h : accept rc sp prev = true) :
+    sp.stHeight = sp.manifestHeight ∧ sp.isSuffrage = true ∧
+    FixedTree.prove snh sp.proof sp.stKey = true ∧
+    ((sp.manifestHeight = 0 ∧ prev = none) ∨
+     (sp.manifestHeight ≠ 0 ∧ ∃ p, prev = some p ∧ p.height < sp.stHeight ∧ sp.stPrev = some p.hash ∧
+        p.isSuffrage = true ∧ sp.sufHeight = p.sufHeight + 1)) := by
+  cases rc with
+  | true =>
+    obtain ⟨a, b, c, _, _, d⟩ := accepted_is_committed sp prev h
+    exact ⟨a, b, c, d⟩
+  | false =>
+    unfold accept SuffrageProof.isValid at h
+    simp only [Bool.and_eq_true, decide_eq_true_eq] at h
+    obtain ⟨⟨hh, hs⟩, hp⟩ := h
+    refine ⟨hh, hs, ?_⟩
+    unfold SuffrageProof.prove at hp
+    by_cases hg : sp.manifestHeight = 0
+    · simp only [hg, if_true, Bool.false_and, Bool.false_eq_true, if_false] at hp
+      split at hp
+      · cases hp
+      · split at hp
+        · cases hp
+        · split at hp
+          · cases hp
+          · rename_i hprev _ hpr
+            refine ⟨by simpa using hpr, Or.inl ⟨hg, ?_⟩⟩
+            cases prev with
+            | none => rfl
+            | some p => simp at hprev
+    · simp only [hg, if_false, Bool.false_and, Bool.false_eq_true] at hp
+      cases prev with
+      | none => simp at hp
+      | some p =>
+        simp only at hp
+        split at hp
+        · cases hp
+        · rename_i h1
+          split at hp
+          · cases hp
+          · rename_i h2
+            split at hp
+            · cases hp
+            · rename_i h3
+              split at hp
+              · cases hp
+              · rename_i h4
+                split at hp
+                · cases hp
+                · rename_i hpr
+                  exact ⟨by simpa using hpr, Or.inr ⟨hg, p, rfl, by omega, by simpa using h2, by simpa using h3, by simpa using h4⟩⟩
+
+theorem facts_ok : Gen.C13.followsChecked = true ∧ Gen.C13.extractErrors = [] := by decide
 
 theorem source_pinned : Gen.C13.pins = Pins.C13 := by decide
 
